@@ -391,8 +391,13 @@ class OpenAPISchemaResolver(SchemaTypeResolver):
 
         # Format the item type properly, handling forward references
         item_type_str = item_type.python_type
+        items_nullable = bool(getattr(items_schema, "is_nullable", False)) and not item_type_str.endswith("| None")
         if item_type.is_forward_ref and not item_type_str.startswith('"'):
-            item_type_str = f'"{item_type_str}"'
+            # (the union goes inside the quotes: `"Node" | None` would be evaluated, and fail, when the class body runs)
+            item_type_str = f'"{item_type_str} | None"' if items_nullable else f'"{item_type_str}"'
+        elif items_nullable:
+            # `items: {nullable: true}`: null is a legitimate element, not something to coerce into the item type
+            item_type_str = f"{item_type_str} | None"
 
         return ResolvedType(python_type=f"List[{item_type_str}]", is_optional=not required)
 
